@@ -34,7 +34,8 @@ def sample_dist_cfg(rng, kinds=None):
     res = bool(rng.random() < 0.5)
     return {"dist": "mademog", "features": int(rng.integers(1, 4)), "hidden": int(rng.choice([4, 8])),
             "ctx": int(rng.choice([0, 2])), "comps": int(rng.integers(1, 5)), "blocks": int(rng.choice([1, 2])),
-            "residual": res, "random_mask": (not res) and bool(rng.random() < 0.6), "narrow": bool(rng.random() < 0.3)}
+            "residual": res, "random_mask": (not res) and bool(rng.random() < 0.6), "narrow": bool(rng.random() < 0.3),
+            "bn": bool(rng.random() < 0.3)}
 
 
 def build_dist(cfg, seed=0, pscale=1.0):
@@ -61,10 +62,15 @@ def build_dist(cfg, seed=0, pscale=1.0):
         d = D.MADEMoG(features=cfg["features"], hidden_features=max(cfg["hidden"], cfg["features"]),
                       context_features=(cfg["ctx"] or None), num_blocks=cfg["blocks"],
                       num_mixture_components=cfg["comps"], use_residual_blocks=cfg["residual"],
-                      random_mask=cfg.get("random_mask", False), custom_initialization=True)
+                      random_mask=cfg.get("random_mask", False), use_batch_norm=cfg.get("bn", False),
+                      custom_initialization=True)
         with torch.no_grad():
             for p in d.parameters():
                 p.add_(torch.randn(p.shape) * 0.3 * pscale)
+            for m in d.modules():
+                if isinstance(m, nn.BatchNorm1d):       # non-trivial running statistics: eval and training mode differ
+                    m.running_mean.copy_(0.3 * torch.randn(m.running_mean.shape))
+                    m.running_var.copy_(0.5 + torch.rand(m.running_var.shape))
             if cfg.get("narrow"):
                 # narrow mixture components: unconstrained stds around -5 (softplus ~ 7e-3, below the epsilon floor)
                 b = d._made.final_layer.bias
